@@ -37,12 +37,19 @@ def run(ctx):
     n = 700 if ctx.quick else 30000
     cases = []
     # corpus first: inputs that exposed defects or were missed by earlier versions of this check
+    drift = ['', '$5', 'Qab', '-', 'a1 ' * 50, 'A1B2', 'US$5', '$7', 'c^3', '3-^3', 'CA$9', '3-^3', 'A1B2', 'A1B2', '(a1)+']
+    drift_size = dict(do_all=3, do_all_exceptions=2, max_punc_in_group=5, max_sampled_attempts=2,
+                      max_strings_in_group=10, n_per_length=64)
     corpus = [
-        (['^-', '-^', '^', '-'], {'dialect': 'perl'}, None),
-        (['a^', 'b-', 'c^', 'd-', 'e^'], {}, {'max_punc_in_group': 5}),
-        (['x' * 3, 'y' * 9, 'abc\n', ' a ', '', 'a\nb'], {'strip': True}, None),
+        (['^-', '-^', '^', '-'], {'dialect': 'perl'}, None, None),
+        (['a^', 'b-', 'c^', 'd-', 'e^'], {}, {'max_punc_in_group': 5}, None),
+        (['x' * 3, 'y' * 9, 'abc\n', ' a ', '', 'a\nb'], {'strip': True}, None, None),
+        # found by the thorough tier: a string matched after the last sampled attempt stops being matched once the
+        # failures of that check are added (the refined class narrows from letters to hex digits)
+        (drift, {'dialect': 'perl', 'remove_empties': True, 'variableLengthFrags': True}, drift_size, 18),
+        (drift, {'dialect': 'perl', 'remove_empties': True, 'variableLengthFrags': True}, drift_size, 24),
     ]
-    stream = [('corpus', arg, opts, size, None) for arg, opts, size in corpus]
+    stream = [('corpus', arg, opts, size, seed) for arg, opts, size, seed in corpus]
     stream += [M.gen_case(rng, R) for _ in range(n)]
     for form, arg, opts, size, seed in stream:
         case = {'form': form, 'examples': repr(arg)[:2000], 'opts': opts, 'size': size, 'seed': seed}
@@ -86,6 +93,23 @@ def run(ctx):
         ctx.count(repr(case), True)
         check_covered(ctx, case, ex, {}, rexes)
         ctx.bump('form.extract+pdextract')
+    # the extend loop under sampling: families whose refinement narrows as examples are added (R.gen_drift), many seeds
+    for it in range(2500 if ctx.quick else 60000):
+        ex, size = R.gen_drift(rng)
+        size.update(max_punc_in_group=5, max_strings_in_group=10)
+        opts = R.gen_opts(rng)
+        seed = rng.randrange(1000)
+        case = {'form': 'drift', 'examples': repr(ex)[:2000], 'opts': opts, 'size': size, 'seed': seed}
+        try:
+            rexes = rx.extract(list(ex), size=rx.Size(**size), seed=seed, **opts)
+        except Exception as e:
+            ctx.fail(case, 'extract raised %s: %s' % (type(e).__name__, str(e)[:200]))
+            continue
+        ctx.cov['evaluations'] += 1
+        if it < 200:
+            ctx.count(repr(case), True)
+        check_covered(ctx, case, ex, opts, rexes)
+    ctx.bump('form.drift-sweep')
     if not ctx.quick:
         # small-scope exhaustive: every multiset of <= 3 strings of length <= 2 over a 7-character alphabet
         alpha = ['a', 'B', '1', '-', '^', ' ', 'é']
